@@ -1,0 +1,17 @@
+//go:build verif
+
+package watchers
+
+// Contracts for govc (see /verif/DESIGN.md). Comment-only file: it adds no code.
+
+// Stop (C03, assumed): stopping this component does not change the configuration (its effect on
+// everything else is left open).
+//@ func StopDiskWatcher
+//@   opaque
+//@   modifies *!config
+
+// Stop (C03, assumed): stopping this component does not change the configuration (its effect on
+// everything else is left open).
+//@ func StopWARCWritingQueueWatcher
+//@   opaque
+//@   modifies *!config
